@@ -10,7 +10,7 @@
    interleaving of the steps of any number of clients; a statement "forall acts" covers all. *)
 From Coq Require Import String List ZArith Bool Permutation.
 From GV Require Import Rules.KcModel Pool.Model Pool.Proofs.
-From GV Require Pool.Progress.
+From GV Require Pool.Progress Race.Checker Race.WaitFacts.
 Import ListNotations.
 
 (* 0. the invariant holds initially and is preserved by every step *)
@@ -147,3 +147,36 @@ Theorem C17_progress_applies_somewhere :
   existsb Progress.is_q2h ts = false /\ Progress.all_done ts = false /\ Progress.can_move 2 false ts = true.
 Proof. exact Progress.progress_applies_somewhere. Qed.
 Print Assumptions C17_progress_applies_somewhere.
+
+(* 9. what the per-run discipline checks MEAN (Race/WaitFacts.v), for ANY table that passes them — in particular the one T2
+      regenerates from engine/gengine_pool.go at every run (obligations/GenWaitOk.v):
+      9a. the acquisition order has no cycle: along "held while acquiring" (directly or through calls) the rank of the mutexes
+          strictly increases, so no chain of acquisitions closes — the classic sufficient condition for the mutexes alone
+          never to deadlock *)
+Theorem C17_acquisition_order_is_acyclic : forall cs qs, Checker.order_ok cs qs = true -> forall a, ~ WaitFacts.chain cs qs a a.
+Proof. exact WaitFacts.acquisition_order_is_acyclic. Qed.
+Print Assumptions C17_acquisition_order_is_acyclic.
+
+Theorem C17_no_mutex_is_acquired_while_held : forall cs qs, Checker.order_ok cs qs = true ->
+  forall q, In q (Checker.all_acqs 3 cs qs) -> ~ In (Checker.q_lock q) (WaitFacts.held_of q).
+Proof. exact WaitFacts.no_self_acquisition. Qed.
+Print Assumptions C17_no_mutex_is_acquired_while_held.
+
+(*    9b. nothing is acquired inside a read section of stateLock (Progress.v: Q1 and Q4 always move) *)
+Theorem C17_read_sections_acquire_nothing : forall cs qs, Checker.order_ok cs qs = true ->
+  forall q, In q (Checker.all_acqs 3 cs qs) -> ~ In "R.stateLock#r"%string (WaitFacts.held_of q).
+Proof. exact WaitFacts.read_sections_acquire_nothing. Qed.
+Print Assumptions C17_read_sections_acquire_nothing.
+
+(*    9c. whoever may wait — getGengine, the engine's Execute*, and their callers — is called with no mutex held
+          (Progress.v: a thread in Q2 or Q5 holds no lock) *)
+Theorem C17_waiters_hold_nothing : forall cs c,
+  Checker.wait_ok cs = true -> In c cs -> Checker.mem (Checker.cs_callee c) (Checker.waiting 6 cs Checker.waits0) = true ->
+  Checker.cs_held c = [] /\ Checker.caller_holds (Checker.cs_caller c) = [].
+Proof. exact WaitFacts.waiters_hold_nothing. Qed.
+Print Assumptions C17_waiters_hold_nothing.
+
+Theorem C17_direct_callers_of_waiting_functions_wait : forall cs c,
+  In c cs -> In (Checker.cs_callee c) Checker.waits0 -> Checker.mem (Checker.cs_caller c) (Checker.waiting 6 cs Checker.waits0) = true.
+Proof. exact WaitFacts.direct_callers_wait. Qed.
+Print Assumptions C17_direct_callers_of_waiting_functions_wait.
